@@ -246,3 +246,61 @@ _add(Cond('sort_index_key_function_forms', [('l0', 'int'), ('l1', 'int'), ('l2',
         functions=['sort_index_for_order'],
         bounds='flat index of 3 distinct labels symbolic in 0..3 (outer-key groups kept together); key function returning a 1-D array / a 2-D array / an Index / a depth-2 IndexHierarchy (symbolic); ascending symbolic; Series.sort_index or Frame.sort_columns (symbolic)',
         route='sort_index / sort_columns(key=callable): ordered lexicographically over every depth the key function returns; labels move with their values', timeout=300))
+
+
+# ---------------------------------------------------------------- key KINDS symbolic, mixed payload, every block layout
+
+SORT_KINDS = (('int64', (5, 3, 4)), ('<U1', ('b', 'a', 'c')), ('float64', (2.5, 0.5, 1.5)), ('bool', (True, False, True)))
+
+
+def _lays_for(kinds):
+    out = []
+    for lay in layouts.compositions(len(kinds)):
+        j, ok = 0, True
+        for nd, w in lay:
+            if len(set(kinds[j:j + w])) > 1:
+                ok = False
+            j += w
+        if ok:
+            out.append(lay)
+    return out
+
+
+def body_sort_kinds(env, kk, k0, k1, k2, asc, two, **kw):
+    from vf import rt
+    kk, pk, asc, two = _conc(kk, 0, 3), 1, bool(asc), bool(two)
+    sel = [_conc(v, 0, 1) for v in (k0, k1, k2)]
+    tape = [bool(kw[f'tape{i}']) for i in range(2)] + [False]
+
+    def run():
+        sf = env.sf
+        from static_frame.core.type_blocks import TypeBlocks
+        keyvals = [SORT_KINDS[kk][1][s] for s in sel]
+        payload = list(SORT_KINDS[pk][1])                 # distinct per row when pk != bool; row identity is the index label anyway
+        second = [9, 8, 8]
+        cols = [payload, keyvals, second]
+        dts = [SORT_KINDS[pk][0], SORT_KINDS[kk][0], 'int64']
+        kinds = [20 + pk, 10 + kk, 0]
+        labels = [10, 11, 12]
+        skey = (lambda i: (keyvals[i], second[i])) if two else (lambda i: keyvals[i])
+        o = sorted(range(3), key=skey)
+        if not asc:
+            o = o[::-1]
+        exp = [[labels[i] for i in o], ['p', 'k', 'j'], [[payload[i], keyvals[i], second[i]] for i in o], [env.xp.dtype(d).kind for d in dts]]
+        got = []
+        for lay in _lays_for(kinds):
+            if env.model:
+                env.nondet.install(list(tape))
+            tb = TypeBlocks.from_blocks(layouts.build_blocks_typed(env, cols, dts, lay))
+            f = sf.Frame(tb, index=labels, columns=['p', 'k', 'j'])
+            r = f.sort_values(['k', 'j'] if two else 'k', ascending=asc)
+            got.append([env.obs(r.index.values.tolist()), env.obs(r.columns.values.tolist()), env.obs(r.values.tolist()), [dt.kind for dt in r._blocks._dtypes]])
+        return got, [exp] * len(got)
+    return rt.untraced(run)
+
+
+_add(Cond('frame_sort_values_key_kinds_all_layouts', [('kk', 'int'), ('k0', 'int'), ('k1', 'int'), ('k2', 'int'), ('asc', 'bool'), ('two', 'bool')], body_sort_kinds, tape=2,
+        ranges={'kk': (0, 3), 'k0': (0, 1), 'k1': (0, 1), 'k2': (0, 1)},
+        functions=['Frame.sort_values'],
+        bounds='3-row frame (payload, key, second int key); str payload column; kind of the key column symbolic over (int64, str, float64, bool), key values symbolic over two values (ties forced), one or two sort keys, ascending symbolic; every block layout that can hold the kinds; tie tape',
+        route='Frame.sort_values(key | [key, second]) on mixed column kinds: whole rows move together (value and type), stable, descending == reverse, dtypes kept, the same over all block layouts', timeout=600))
